@@ -17,11 +17,14 @@ def run(tier, seed):
                     for ml in lens:
                         cases.append(Case('p%d_r%d_s%d_op%d_m%d' % (proto, role, state, op, ml), 'crypto', 'zzC10_step', [proto, role, state, op, ml]))
         cases.append(Case('constructor_p%d' % proto, 'crypto', 'zzC10_constructor', [proto]))
+        for role in (0, 1):
+            for sl in ((0, 1, 31, 32, 33, 64) if thorough else (0, 31, 32)):
+                cases.append(Case('start_seed_p%d_r%d_l%d' % (proto, role, sl), 'crypto', 'zzC10_start_seed', [proto, role, sl]))
     return run_check('C10', cases, tier, seed, setup=dkgcommon.SETUP,
         functions=['Start/NextTimeout/End/HandleBroadcastMsg/HandlePrivateMsg/ForceDisqualify/Running of feldmanVSSstate, feldmanVSSQualState, JointFeldmanState', 'newDKGCommon', 'NewFeldmanVSS', 'NewFeldmanVSSQual', 'NewJointFeldman'],
         bounds={'configuration': 'n = 3, t = 1, dealer and non-dealer roles, three protocols',
                 'automaton states': 'new, started, one timeout, two timeouts, ended, started with a disqualified dealer (reached through real calls)',
-                'call under test': 'origin / participant index symbolic 64-bit; message bytes symbolic with lengths %s; constructor arguments symbolic 64-bit (Joint-Feldman size <= 6)' % ('0,1,2,34,193' if thorough else '0,2,34'),
+                'Start seeds': 'lengths 0, 31, 32 (thorough: also 1, 33, 64), contents symbolic, dealer and non-dealer', 'call under test': 'origin / participant index symbolic 64-bit; message bytes symbolic with lengths %s; constructor arguments symbolic 64-bit (Joint-Feldman size <= 6)' % ('0,1,2,34,193' if thorough else '0,2,34'),
                 'outside': 'restart after End (left unspecified by the documentation); histories are covered through the automaton state: accept/reject decisions read only running/jointRunning and the two timeout flags, which the enumerated states cover'},
         assumptions=dkgcommon.ASSUME, trusted=dkgcommon.TRUSTED,
         explanation='bounded symbolic execution of the real DKG Go code (go/ssa) with curve operations uninterpreted; the reference automaton is written in the harness from the doc comments; frame condition = field-by-field snapshot equality plus callback count')
